@@ -253,6 +253,7 @@ type run struct {
 	oraNilResultAt uint32
 	// heights of the blocks holding a response to a request older than MaxTraceableBlocks
 	oraStaleAt map[uint32]bool
+	beforeX    []*transaction.Transaction // C04: transactions that precede everything else in the block of X / its twin
 	afterX     []*transaction.Transaction // C04: halting transactions that follow X / its twin in the block
 	syncPoint  uint32                     // C20 part B: the state synchronisation point of the run
 }
